@@ -7,7 +7,7 @@ Tie + oracle: the real compiler+VM outcome (output, trigger trace, completion / 
 analysed AST the compiler consumed; after normal completion the core is clean
 (stack=0 mp=0 handlers=0).
 """
-from gen import progs
+from gen import progs, families
 from vlib import core, progstream
 
 MODULES = ["HmsProofs.C01"]
@@ -101,6 +101,10 @@ def run(ctx):
         if e.get("status") == "open":
             ctx.known(e["id"], e["what"])
     judge(ctx, CORPUS, "C01 corpus")
+    for fam, fsrcs in families.all_families().items():
+        for i in range(0, len(fsrcs), 1500):
+            judge(ctx, fsrcs[i:i + 1500], f"C01 family {fam}")
+        ctx.coverage[f"family_{fam}"] = len(fsrcs)
     n = 1200 if ctx.tier == "quick" else 20000
     srcs, feats = [], {}
     for _ in range(n):
